@@ -465,7 +465,10 @@ class UTPM(Ring, RawAlgorithmsMixIn):
         return self * rhs
 
     def __rtruediv__(self, rhs):
-        tmp = self.zeros_like()
+        rhs = numpy.asarray(rhs)
+        dtype = numpy.promote_types(self.data.dtype, rhs.dtype)
+        shp = numpy.broadcast_shapes(self.data.shape[2:], rhs.shape)
+        tmp = UTPM(numpy.zeros(self.data.shape[:2] + shp, dtype=dtype))
         tmp.data[0,...] = rhs
         return tmp/self
 
